@@ -145,7 +145,7 @@ class ShapeGen:
                 s = rng.choice([b for b in bufs if b.dims])
                 op = rng.choice(["=", "+="])
                 rhs = self.access(s, "i", env)
-                if rng.random() < 0.2:
+                if rng.random() < 0.3:
                     rhs = "relu(%s)" % rhs
                 elif rng.random() < 0.3:
                     rhs = "%s + %s" % (rhs, self.access(rng.choice([b for b in bufs if b.dims]), "i", env))
@@ -167,7 +167,9 @@ class ShapeGen:
                     if not srcs:
                         continue
                     s = rng.choice(srcs)
-                    sw = s.name if s.dims == [4] and rng.random() < 0.6 else self.window_of(s, 4)
+                    # a whole window variable passed for a formal the callee only reads makes exo emit C that does not
+                    # compile (struct exo_win_1f32 vs exo_win_1f32c): a C15 matter; keep it rare so that the programs run
+                    sw = s.name if s.dims == [4] and rng.random() < 0.05 else self.window_of(s, 4)
                     if sc:
                         L.append("%srd4%s(%s, %s)" % (ind, self.uid, rng.choice(sc).name, sw))
                     else:
@@ -185,7 +187,7 @@ class ShapeGen:
                     continue
                 s = rng.choice(srcs)
                 dw = d.name if d.dims == [4] and rng.random() < 0.6 else self.window_of(d, 4)
-                sw = s.name if s.dims == [4] and rng.random() < 0.6 else self.window_of(s, 4)
+                sw = s.name if s.dims == [4] and rng.random() < 0.05 else self.window_of(s, 4)
                 L.append("%s%s%s(%s, %s)" % (ind, f, self.uid, dw, sw))
             elif k == "if":
                 cond = rng.choice(["n > %d" % rng.randint(1, 4), "n == %d" % rng.randint(1, 3)] +
